@@ -4,17 +4,15 @@ from pathlib import Path
 
 VERIF = Path(__file__).resolve().parent.parent
 
-CLAIMED = {
-    "C03": dict(
-        text="Lean 4 theorems over a transcription of result.py: class = most severe present for every finite "
-             "sequence, invariant under every permutation, Ok values kept in order, longest Retry delay, every "
-             "message of the winning class. Tied to the code by a regenerated dispatch table (theorem "
-             "table_matches_source) and a differential run of combine/unwrapped_combine against the compiled model.",
-        note="Lean kernel; axioms ⊆ {propext, Classical.choice, Quot.sound}; hand-written model validated by "
-             "differential runs; extract.py; Python reduce/join/max modelled.",
-        technique="Lean 4 proof by list induction + regenerated table + model/implementation differential",
-        design="5/C03"),
-}
+def load_claims():
+    """one file per claimed property: harness/claims/Cxx.json with text, note, technique, design"""
+    out = {}
+    for f in sorted((VERIF / "harness" / "claims").glob("C*.json")):
+        out[f.stem] = json.loads(f.read_text())
+    return out
+
+
+CLAIMED = load_claims()
 
 PENDING_REASON = "check not built yet in this round (planned at level proof; see DESIGN.md section 5)"
 
@@ -41,7 +39,7 @@ def main():
         })
     m = {
         "version": 1,
-        "setup_cmd": "cd lean && lake build Koreo driver",
+        "setup_cmd": "sh setup.sh",
         "hooks": {
             "guard": "KOREO_CORE_VERIF",
             "enable": "no source hook exists; checks set KOREO_CORE_VERIF=1 and import koreo from /repo/src",
